@@ -1732,11 +1732,8 @@ class Cat(Funsor, metaclass=CatMeta):
             pos = 0
             for part in self.parts:
                 psize = part.inputs[self.part_name].size
-                if step > 1:
-                    pstart = ((pos - start) // step) * step - (pos - start)
-                    pstart = pstart + step if pstart < 0 else pstart
-                else:
-                    pstart = max(start - pos, 0)
+                # first position in this part that the slice selects
+                pstart = start - pos if pos <= start else (start - pos) % step
                 pstop = min(pos + psize, stop) - pos
 
                 if not (pstart >= pstop or pos >= stop or pos + psize <= start):
